@@ -21,11 +21,15 @@ struct Rx { size_t id; };                                    /* std::regex */
 struct Lvl { _Bool is_rx; struct Str s; struct Rx rx; };     /* std::variant<std::string, std::regex> */
 struct LvlVec { struct Lvl *items; size_t len; };            /* std::vector<RoutingKeyLevel> */
 /* tulz::Subject<...>: external here (C05).  sig = the argument signature it was created with */
-enum { SIG_NONE = 0, SIG_VOID = 1, SIG_INT = 2, SIG_INT_REF = 3 };
+enum { SIG_NONE = 0, SIG_VOID = 1, SIG_INT = 2, SIG_INT_REF = 3, SIG_PAYLOAD = 4 };
+/* life of the by-value class argument (specification type Payload of lower/drivers/router.cpp) */
+enum { PL_RAW = 0, PL_LIVE = 1, PL_MOVED = 2 };
+struct Payload { int val; int state; };
 struct SubjCore { int sig; _Bool has_subs; _Bool is_w; };
 struct Subj0 { struct SubjCore c; };
 struct SubjI { struct SubjCore c; };
 struct SubjR { struct SubjCore c; };
+struct SubjP { struct SubjCore c; };
 struct SPtr { struct Subj0 *p; };                            /* std::unique_ptr<Subject<>> */
 struct OPtr0 { void *p; }; struct OPtrI { void *p; };        /* std::unique_ptr<Observer<...>> */
 struct OAuto0 { struct OPtr0 m_ptr; }; struct OAutoI { struct OPtrI m_ptr; };
